@@ -4,6 +4,7 @@ import (
 	"encoding/hex"
 	"strconv"
 	"strings"
+	"sync/atomic"
 
 	"layeh.com/radius"
 )
@@ -75,6 +76,19 @@ func (g *Gen) RandBytes(n int) []byte {
 
 // ---- field syntax of the line protocol ----
 
+// hxIn renders an INPUT: the empty byte string is written `-` (nil) or `~` (empty, not nil) alternately
+var hxInToggle uint32
+
+func hxIn(b []byte) string {
+	if len(b) == 0 {
+		if atomic.AddUint32(&hxInToggle, 1)%2 == 0 {
+			return "~"
+		}
+		return "-"
+	}
+	return hex.EncodeToString(b)
+}
+
 func hx(b []byte) string {
 	if len(b) == 0 {
 		return "-"
@@ -88,6 +102,15 @@ func hx(b []byte) string {
 func unhx(s string) []byte {
 	if s == "-" {
 		return nil
+	}
+	if s == "~" {
+		// an EMPTY slice that is not nil (with spare capacity like every other input): `len(x) == 0` and
+		// `x == nil` are different tests
+		buf := make([]byte, 48)
+		for i := range buf {
+			buf[i] = 0xA5 ^ byte(i*7)
+		}
+		return buf[:0]
 	}
 	b, err := hex.DecodeString(s)
 	if err != nil {
